@@ -164,9 +164,15 @@ theorem InvG_pushStore {st} {s s1 : State} (hI : InvG noSlack st s) (k : Key) (n
   simp only [noSlack, slackAt] at h ⊢
   split <;> omega
 
-theorem InvG_notify {s : State} (k : Key) (m : Nat) (hI : InvG (slackAt k (m + 1)) noStale s)
+/-- One element of `k` less is waiting for its notification. -/
+def decAt (sl : Key → Nat) (k : Key) : Key → Nat := fun k' => if k' = k then sl k - 1 else sl k'
+
+theorem decAt_slackAt (k : Key) (m : Nat) : decAt (slackAt k (m + 1)) k = slackAt k m := by
+  funext k'; simp only [decAt, slackAt]; split <;> simp
+
+theorem InvG_notify_sl {s : State} {sl : Key → Nat} (k : Key) (hI : InvG sl noStale s) (hpos : 0 < sl k)
     (hk : ∀ w, w ∈ s.wakeQ → w.key = k) :
-    InvG (slackAt k m) noStale (notify k s) ∧ (∀ w, w ∈ (notify k s).wakeQ → w.key = k) ∧
+    InvG (decAt sl k) noStale (notify k s) ∧ (∀ w, w ∈ (notify k s).wakeQ → w.key = k) ∧
       (notify k s).wakeQ.length ≤ s.wakeQ.length + 1 := by
   unfold notify
   split
@@ -175,10 +181,10 @@ theorem InvG_notify {s : State} (k : Key) (m : Nat) (hI : InvG (slackAt k (m + 1
     intro k'
     have h := hI.counts k'
     have hR0 : cntR s k = 0 := cntR_zero_of_popFirst_none hp
-    simp only [slackAt] at h ⊢
+    simp only [decAt]
     by_cases hkk : k' = k
-    · subst hkk; simp only [if_true] at h ⊢; omega
-    · simp only [hkk, if_false] at h ⊢; exact h
+    · subst hkk; simp only [if_true]; omega
+    · simp only [hkk, if_false]; exact h
   · next e reg' hp =>
     obtain ⟨a, b, h1, h2, h3, _⟩ := popFirst_some hp
     have hek : e.1 = k := keyIs_iff.mp h3
@@ -234,12 +240,12 @@ theorem InvG_notify {s : State} (k : Key) (m : Nat) (hI : InvG (slackAt k (m + 1
       exact hnew (hy ▸ hxy ▸ hx)
     · intro k'
       have hc' := hI.counts k'
-      show (s.wakeQ ++ [(⟨e.2.conn, k, e.2.op⟩ : Wake)]).countP (fun w => w.key == k') + slackAt k m k' ≤ cntL s k' ∧
-        (0 < reg'.countP (keyIs k') → cntL s k' = (s.wakeQ ++ [(⟨e.2.conn, k, e.2.op⟩ : Wake)]).countP (fun w => w.key == k') + slackAt k m k')
+      show (s.wakeQ ++ [(⟨e.2.conn, k, e.2.op⟩ : Wake)]).countP (fun w => w.key == k') + decAt sl k k' ≤ cntL s k' ∧
+        (0 < reg'.countP (keyIs k') → cntL s k' = (s.wakeQ ++ [(⟨e.2.conn, k, e.2.op⟩ : Wake)]).countP (fun w => w.key == k') + decAt sl k k')
       have hRs : cntR s k' = (a ++ b).countP (keyIs k') + (if keyIs k' e = true then 1 else 0) := by
         unfold cntR; rw [h1]; exact countP_remove _ _ _ _
       rw [h2, List.countP_append]
-      simp only [List.countP_cons, List.countP_nil, Nat.zero_add, slackAt] at hc' ⊢
+      simp only [List.countP_cons, List.countP_nil, Nat.zero_add, decAt] at hc' ⊢
       have hWs : cntW s k' = s.wakeQ.countP (fun w => w.key == k') := rfl
       by_cases hkk : k' = k
       · subst hkk
@@ -253,6 +259,8 @@ theorem InvG_notify {s : State} (k : Key) (m : Nat) (hI : InvG (slackAt k (m + 1
         simp only [h5, Bool.false_eq_true, if_false, Nat.add_zero] at hRs
         simp only [h6, Bool.false_eq_true, if_false, Nat.add_zero, hkk] at hc' ⊢
         omega
+
+
     · intro w h
       have h : w ∈ s.wakeQ ++ [(⟨e.2.conn, k, e.2.op⟩ : Wake)] := h
       rcases List.mem_append.mp h with h | h
@@ -260,6 +268,14 @@ theorem InvG_notify {s : State} (k : Key) (m : Nat) (hI : InvG (slackAt k (m + 1
       · simp only [List.mem_singleton] at h; rw [h]
     · show (s.wakeQ ++ [(⟨e.2.conn, k, e.2.op⟩ : Wake)]).length ≤ _
       simp
+
+theorem InvG_notify {s : State} (k : Key) (m : Nat) (hI : InvG (slackAt k (m + 1)) noStale s)
+    (hk : ∀ w, w ∈ s.wakeQ → w.key = k) :
+    InvG (slackAt k m) noStale (notify k s) ∧ (∀ w, w ∈ (notify k s).wakeQ → w.key = k) ∧
+      (notify k s).wakeQ.length ≤ s.wakeQ.length + 1 := by
+  have := InvG_notify_sl k hI (by simp [slackAt]) hk
+  rw [decAt_slackAt] at this
+  exact this
 
 theorem InvG_notifyN (k : Key) : ∀ (n : Nat) (s : State), InvG (slackAt k n) noStale s → (∀ w, w ∈ s.wakeQ → w.key = k) →
     InvF (notifyN n k s) ∧ (notifyN n k s).wakeQ.length ≤ s.wakeQ.length + n := by
@@ -282,8 +298,8 @@ theorem InvG_notifyN (k : Key) : ∀ (n : Nat) (s : State), InvG (slackAt k n) n
 theorem countP_filter_le {α : Type} (p f : α → Bool) (l : List α) : (l.filter f).countP p ≤ l.countP p :=
   List.Sublist.countP_le List.filter_sublist
 
-theorem InvF_wakeOne (q : Quirks) (hq : q.unregisterAllOnServe = true) (s : State) (hI : InvF s) :
-    InvF (wakeOne q s) := by
+theorem InvG_wakeOne {sl : Key → Nat} (q : Quirks) (hq : q.unregisterAllOnServe = true) (s : State) (hI : InvG sl noStale s) :
+    InvG sl noStale (wakeOne q s) := by
   unfold wakeOne
   split
   · exact hI
@@ -300,7 +316,7 @@ theorem InvF_wakeOne (q : Quirks) (hq : q.unregisterAllOnServe = true) (s : Stat
       have hL0 : cntL s w.key = 0 := cntL_zero_of_popElem_none hpe
       have := hWs w.key
       have hc := (hI.counts w.key).1
-      simp only [beq_self_eq_true, if_true, noSlack] at this hc
+      simp only [beq_self_eq_true, if_true] at this hc
       omega
     · next e st' hpe =>
       obtain ⟨a, b', h1, h2, hek⟩ := popElem_some hpe
@@ -383,13 +399,12 @@ theorem InvF_wakeOne (q : Quirks) (hq : q.unregisterAllOnServe = true) (s : Stat
           unfold cntL; rw [h1, h2]; exact countP_remove _ _ _ _
         have hW' := hWs k'
         have hRle : (s.registry.filter fun x => x.2.conn != w.conn).countP (keyIs k') ≤ cntR s k' := countP_filter_le _ _ _
-        show (setBlocked _ w.conn none).wakeQ.countP (fun w' => w'.key == k') + noSlack k' ≤ (setBlocked _ w.conn none).store.countP (keyIs k') ∧
+        show (setBlocked _ w.conn none).wakeQ.countP (fun w' => w'.key == k') + sl k' ≤ (setBlocked _ w.conn none).store.countP (keyIs k') ∧
           (0 < ((setBlocked _ w.conn none).registry.filter fun x => x.2.conn != w.conn).countP (keyIs k') →
-            (setBlocked _ w.conn none).store.countP (keyIs k') = (setBlocked _ w.conn none).wakeQ.countP (fun w' => w'.key == k') + noSlack k')
+            (setBlocked _ w.conn none).store.countP (keyIs k') = (setBlocked _ w.conn none).wakeQ.countP (fun w' => w'.key == k') + sl k')
         rw [setBlocked_wakeQ, setBlocked_store, setBlocked_registry]
-        simp only [noSlack, Nat.add_zero] at hc' ⊢
-        show rest.countP (fun w' => w'.key == k') ≤ st'.countP (keyIs k') ∧
-          (0 < (s.registry.filter fun x => x.2.conn != w.conn).countP (keyIs k') → st'.countP (keyIs k') = rest.countP (fun w' => w'.key == k'))
+        show rest.countP (fun w' => w'.key == k') + sl k' ≤ st'.countP (keyIs k') ∧
+          (0 < (s.registry.filter fun x => x.2.conn != w.conn).countP (keyIs k') → st'.countP (keyIs k') = rest.countP (fun w' => w'.key == k') + sl k')
         by_cases hkk : k' = w.key
         · subst hkk
           have : keyIs w.key e = true := keyIs_iff.mpr hek
@@ -404,6 +419,9 @@ theorem InvF_wakeOne (q : Quirks) (hq : q.unregisterAllOnServe = true) (s : Stat
           omega
       · show (setBlocked _ w.conn none).lost = []
         rw [setBlocked_lost]; exact hI.lost
+
+theorem InvF_wakeOne (q : Quirks) (hq : q.unregisterAllOnServe = true) (s : State) (hI : InvF s) :
+    InvF (wakeOne q s) := InvG_wakeOne q hq s hI
 
 theorem InvF_iter_wakeOne (q : Quirks) (hq : q.unregisterAllOnServe = true) : ∀ n s, InvF s → InvF (iter (wakeOne q) n s) := by
   intro n
